@@ -9258,7 +9258,38 @@ let script_complete cands line p =
     | Some p1 -> let (_, w) = p1 in w
     | None -> []
   in
-  (start, (filter (fun c -> prefix_b word c) cands))
+  (start,
+  (match cands with
+   | [] -> filter (fun c -> prefix_b word c) cands
+   | s :: rest ->
+     (match s with
+      | [] -> filter (fun c -> prefix_b word c) cands
+      | n0 :: l ->
+        (match n0 with
+         | N0 -> filter (fun c -> prefix_b word c) cands
+         | Npos p1 ->
+           (match p1 with
+            | XO p2 ->
+              (match p2 with
+               | XI p3 ->
+                 (match p3 with
+                  | XO p4 ->
+                    (match p4 with
+                     | XI p5 ->
+                       (match p5 with
+                        | XO p6 ->
+                          (match p6 with
+                           | XH ->
+                             (match l with
+                              | [] -> rest
+                              | _ :: _ ->
+                                filter (fun c -> prefix_b word c) cands)
+                           | _ -> filter (fun c -> prefix_b word c) cands)
+                        | _ -> filter (fun c -> prefix_b word c) cands)
+                     | _ -> filter (fun c -> prefix_b word c) cands)
+                  | _ -> filter (fun c -> prefix_b word c) cands)
+               | _ -> filter (fun c -> prefix_b word c) cands)
+            | _ -> filter (fun c -> prefix_b word c) cands)))))
 
 (** val script_hint : str list -> str -> nat -> str option **)
 
